@@ -57,7 +57,7 @@ LEVEL_NOTE = ("Trusted: vf/ref/pms_atom.py (my transcription of PMS ch.3 + 8.3 a
 RULE = (
     "each case = one string tried under 11 EAPI settings (evaluations counts string x EAPI); sources: gen.atoms.atom_case "
     "(valid atom, 60% with 1-2 edits), enum (product of blocker x operator x name x version x slot x repo x use alternatives "
-    "incl. invalid ones), fuzz (thorough). non-trivial = valid under >=1 EAPI and uses an optional part (blocker, operator, "
+    "incl. invalid ones), fuzz (thorough: hypothesis st.text over the 41-char atom alphabet + random splices of atom fragments). non-trivial = valid under >=1 EAPI and uses an optional part (blocker, operator, "
     "slot, sub-slot, slot operator, repo, USE dep), or acceptance differs between EAPIs, or a mutation whose acceptance "
     "vector differs from its parent's (lands across the boundary); distinct = distinct string"
 )
@@ -80,13 +80,15 @@ BATCH = 25  # strings built from one hypothesis-drawn seed
 
 
 def _ref_all(s):
-    """{eapi: Fields | Reject}"""
+    """{eapi: Fields | Reject}: one EAPI-independent parse, then the feature gates per EAPI group"""
+    try:
+        f = R.parse_any(s)
+    except R.Reject as r:
+        return dict.fromkeys(EAPIS, r)
     out = {}
     for g in _GROUPS:
-        try:
-            v = R.parse(s, g[0])
-        except R.Reject as r:
-            v = r
+        rule = R.gate(f, g[0])
+        v = f if rule is None else R.Reject(rule)
         for e in g:
             out[e] = v
     return out
@@ -253,7 +255,7 @@ def _universe(E, f):
     return out
 
 
-def check_string(ctx, s, parent=None, mut=None, gen=None, source="gen"):
+def check_string(ctx, s, parent=None, mut=None, gen=None, source="gen", parent_features=None):
     E = env()
     case = {"s": s}
     if parent is not None:
@@ -305,8 +307,12 @@ def check_string(ctx, s, parent=None, mut=None, gen=None, source="gen"):
         classes.append("rule:" + rule)
     flipped = False
     if parent is not None:
-        pref = _ref_all(parent)
-        flipped = any(isinstance(pref[e], R.Reject) == ref_ok[e] for e in EAPIS)
+        if parent_features is not None:  # parent is a constructive atom: valid iff its features are legal
+            pf = set(parent_features)
+            flipped = any((pf <= R.features_for(g[0])) != ref_ok[g[0]] for g in _GROUPS)
+        else:
+            pref = _ref_all(parent)
+            flipped = any(isinstance(pref[e], R.Reject) == ref_ok[e] for e in EAPIS)
         classes.append("mut:flip" if flipped else "mut:same")
         if mut:
             classes.append("mut:" + mut.split("+")[0].split(":")[0])
@@ -405,7 +411,7 @@ ENUM_PARTS = {
     "name": ["c/p", "c/p-r1", "c/p-1x", ".c/p", "c/+p", "c/p-", "c/p-1-r1x", "c/1-r1"],
     "ver": ["", "-1", "-1-r1", "-1a_p1-r0", "-1-r", "-1A", "-01.0"],
     "slot": ["", ":0", ":0/1", ":0=", ":0/1=", ":*", ":=", ":-0", ":.0", ":+0", ":0/", ":", ":0/+1"],
-    "repo": ["", "::r", "::-r", "::"],
+    "repo": ["", "::r", "::-r", "::", "::r.x"],
     "use": ["", "[a]", "[-a,b?]", "[!a=]", "[a(+)]", "[-a(-),b(+)?]", "[]", "[a,]", "[!a]", "[-a?]", "[a(+)", "[a()]"],
 }
 
@@ -420,17 +426,17 @@ def enum_strings():
 def plan(tier, seed):
     tasks = []
     if tier == "quick":
-        for i in range(12):
-            tasks.append({"task": "gen", "examples": 3500})
         for i in range(3):
-            tasks.append({"task": "enum", "slice": i, "nslices": 3, "sample": 0.03})
+            tasks.append({"task": "enum", "slice": i, "nslices": 3, "sample": 0.025})
+        for i in range(12):
+            tasks.append({"task": "gen", "examples": 2500})
     else:
-        for i in range(16):
-            tasks.append({"task": "gen", "examples": 90000})
         for i in range(16):
             tasks.append({"task": "enum", "slice": i, "nslices": 16, "sample": 1.0})
         for i in range(16):
-            tasks.append({"task": "fuzz", "examples": 120000})
+            tasks.append({"task": "gen", "examples": 90000})
+        for i in range(16):
+            tasks.append({"task": "fuzz", "examples": 100000, "text_examples": 20000})
     return tasks
 
 
@@ -441,19 +447,27 @@ def run_task(ctx, task, **kw):
     if task in ("gen", "fuzz"):
         # hypothesis supplies the seeds; the cases are built and checked outside the hypothesis test
         # function (running the oracle inside it was ~3x slower: per-example bookkeeping + allocator churn)
+        if task == "fuzz":
+            # native hypothesis text over the atom alphabet (char-level fuzz), collected first, judged below
+            texts = []
+            core.hyp_run(ctx, st.text(G.ALPHABET, max_size=20), texts.append, kw.get("text_examples", 0), chunk=2000, seed_salt=4)
+            for i, t in enumerate(texts):
+                if i % 256 == 0 and ctx.out_of_time():
+                    break
+                check_string(ctx, t, source="fuzz")
         seeds = []
         core.hyp_run(ctx, SEEDS, seeds.append, kw["examples"] // BATCH, chunk=1000, seed_salt=3 if task == "fuzz" else 0)
         for i, seed in enumerate(seeds):
             if ctx.out_of_time():
                 break
-            rnd = random.Random(seed)
+            rnd = random.Random(f"{seed}:{ctx.seed}:{ctx.shard}")  # hypothesis repeats small seeds (0, 1, ...) in every shard
             for _ in range(BATCH):
                 if task == "fuzz":
                     check_string(ctx, G.build_fuzz_text(rnd), source="fuzz")
                     continue
                 c = G.build_atom_case(rnd)
                 gen = (c["fields"], c["features"]) if c["fields"] is not None else None
-                check_string(ctx, c["s"], parent=c["parent"], mut=c["mut"], gen=gen, source="gen")
+                check_string(ctx, c["s"], parent=c["parent"], mut=c["mut"], gen=gen, source="gen", parent_features=c["parent_features"])
     elif task == "enum":
         rnd = random.Random(ctx.seed * 7919 + kw["slice"])  # only selects which slice of the finite product a quick run visits
         sample = kw["sample"]
@@ -479,10 +493,16 @@ def replay(ctx, case):
 
 
 def shrink_case(ctx, bucket, case):
-    """greedy character deletion keeping the bucket"""
+    """delta-debugging over characters (remove chunks of decreasing size) keeping the bucket"""
     s = case["s"]
+    if len(s) <= 12:
+        return None
+    budget = [400]  # oracle calls
 
     def hits(t):
+        if budget[0] <= 0:
+            return False
+        budget[0] -= 1
         c = core.Ctx(ID, ctx.tier, ctx.seed)
         try:
             check_string(c, t, source="shrink")
@@ -492,13 +512,18 @@ def shrink_case(ctx, bucket, case):
 
     if not hits(s):
         return None
-    changed = True
-    while changed and len(s) > 1:
-        changed = False
-        for i in range(len(s)):
-            t = s[:i] + s[i + 1:]
+    size = max(1, len(s) // 2)
+    while size >= 1 and budget[0] > 0:
+        i = 0
+        progressed = False
+        while i < len(s):
+            t = s[:i] + s[i + size:]
             if t and hits(t):
                 s = t
-                changed = True
-                break
+                progressed = True
+            else:
+                i += size
+        if size == 1 and not progressed:
+            break
+        size = size // 2 if size > 1 else (1 if progressed else 0)
     return {"s": s}
